@@ -243,6 +243,9 @@ mod vh_popen {
             stdout: r1,
             stderr: r2,
             detached,
+            // fork returns a pid here, so the child-side setpgid(0,0) is not executed; a
+            // parent-side setpgid(child, child) would be (see the model: EACCES once the child exec'd)
+            setpgid: kani::any(),
             ..Default::default()
         };
         let res = Popen::create(&["/p"], config);
@@ -985,6 +988,9 @@ mod vh_popen {
                 kani::cover!(true, "COVER/wait-timeout-expired");
                 vcheck!(C11, mk::time::now_ge(DL_S, DL_NS), "C11/none-not-early: 'still running' reported before the duration elapsed");
                 vcheck!(C11, !l.finished, "C11/known-status-immediately: None although the status was already known");
+                // 'still running' must come from a status check made after the last sleep: a child
+                // that exited during that sleep would otherwise be reported as running at the deadline
+                vcheck!(C11, l.finished || mp::WAITPID_CALLS - w0 == (mk::time::SLEEPS - s0) + 1, "C11/none-is-fresh: 'still running' reported without a status check after the last sleep");
             }
             Ok(Some(s)) => {
                 kani::cover!(!l.finished, "COVER/wait-timeout-exited");
